@@ -21,6 +21,8 @@ def families(tier):
     fam['single_underflow'] = lambda: R.family_single(R.V_UNDER, 3, [1.0, 5e-324], patterns=['A', 'AA', 'AB', 'AAB', 'ABA', 'ABC'])
     fam['pairs_tiny'] = lambda: R.family_multi(R.V_TINY, 2, [0.5, 0.25, 0.3], 2)
     fam['long_lists_similar_names'] = family_similar_names
+    # a variable type used two or three times with non-dyadic values: the same factors multiplied in different orders give products one ulp apart
+    fam['repeated_type_nondyadic'] = lambda: R.family_single([0.7, 0.3, 0.1, 0.5], 3, [0.3, 1.0], patterns=['AAA', 'AAB', 'ABA', 'ABB'])
     if tier == 'thorough':
         fam['single_full2'] = lambda: R.family_single(R.V_FULL, 3, [1.0, 0.3], patterns=['A', 'AA', 'AB', 'AAA', 'AAB', 'ABA', 'ABB'])
         fam['single_full3'] = lambda: R.family_single(R.V_FULL, 2, [1.0, 0.3], patterns=['ABC'])
